@@ -186,8 +186,17 @@ def ns_attr(nsc, tns):
 
 PCNAME = {"s": "strict", "l": "lax", "k": "skip"}
 
-def block_attr(b3, what):
+def block_attr(b3, what, mode=None, r=None):
+    """mode None: the attribute is written iff the set is non-empty (schemas without blockDefault);
+       'inherit': no attribute (the effective value is the schema's blockDefault);
+       'explicit': always written — block="" overrides a blockDefault; the full set may be written #all"""
+    if mode == "inherit":
+        return ""
     names = [n for n, x in zip(what, b3) if x]
+    if mode == "explicit":
+        if len(names) == len(what) and r is not None and r.chance(1, 2):
+            return ' block="#all"'
+        return ' block="%s"' % " ".join(names)
     return ' block="%s"' % " ".join(names) if names else ""
 
 class Render:
@@ -256,7 +265,7 @@ class Render:
         a = ""
         if c["name"] is not None: a += ' name="%s"' % tname(c)
         if c["abstract"]: a += ' abstract="true"'
-        a += block_attr(c["block"], ("extension", "restriction"))
+        a += block_attr(c["block"], ("extension", "restriction"), c.get("block_mode"), self.r)
         kind = c["kind"]
         if c["base"] is None:
             if kind == "S":
@@ -284,7 +293,7 @@ class Render:
         if d["subst"] is not None: a += ' substitutionGroup="%s"' % qn(d["subst"][0], d["subst"][1], tns)
         if d["abstract"]: a += ' abstract="true"'
         if d["nillable"]: a += ' nillable="true"'
-        a += block_attr(d["block"], ("substitution", "extension", "restriction"))
+        a += block_attr(d["block"], ("substitution", "extension", "restriction"), d.get("block_mode"), self.r)
         a += vc_attrs(d["vc"])
         if anon:
             return "<xs:element%s>%s</xs:element>" % (a, self.ctype_body(M.ctypes[t], doc, tns))
@@ -313,6 +322,10 @@ class Render:
             tns = tns_of[doc]
             head = '<xs:schema xmlns:xs="%s" xmlns:a="urn:a" xmlns:b="urn:b" targetNamespace="%s"%s>' % (
                 XS, NSURI[tns], ' elementFormDefault="qualified"' if M.form_qualified else "")
+            bd = getattr(M, "block_default", None)
+            if bd is not None and doc == "a":
+                names = [n for n, x in zip(("substitution", "extension", "restriction"), bd) if x]
+                head = head[:-1] + ' blockDefault="%s">' % ("#all" if len(names) == 3 and self.r.chance(1, 2) else " ".join(names))
             pre = ""
             if doc == "a":
                 pre += '<xs:import namespace="urn:b" schemaLocation="b.xsd"/>'
@@ -791,3 +804,86 @@ def narrow(p, r):
             mn, mx = p[3], p[4]
         return ("G", "s", kids, mn, mx)
     return p
+
+# ----------------------------------------------------------------------------------------------- substitution-group chains
+BLOCK_DEFAULTS = [None, None, None, None, (0, 1, 0), (0, 0, 1), (1, 1, 1), (1, 0, 0), (0, 1, 1), (1, 1, 0)]
+
+def build_subst_model(r, variant=0):
+    """Substitution groups whose members have types derived from the head's type over 1-3 steps (extension /
+       restriction per step), {prohibited substitutions} (block = extension / restriction / #all, explicit — also the
+       overriding block="" — or inherited from blockDefault) independently on the head's type, every intermediate type
+       and the member's own type, {disallowed substitutions} (substitution / extension / restriction / #all) on the
+       head and on the members, members affiliated to the head directly or through another member, an optional
+       abstract head.  Returns (M, inst, roots): roots = [(root declaration, exemplar declaration)] — root types are
+       sequence(exemplar{1,2}); the cases put every member in the exemplar's place (c08.py: subst_cases)."""
+    M = Model()
+    M.form_qualified = True
+    bd = r.choice(BLOCK_DEFAULTS) if variant != 1 else None
+    M.block_default = bd
+    def tblock(p=4):              # (variant 1: no blockDefault)
+        if bd is not None and r.chance(1, 2):
+            return dict(block=(bd[1], bd[2]), block_mode="inherit")
+        b = (1 if r.chance(1, p) else 0, 1 if r.chance(1, p) else 0)
+        return dict(block=b, block_mode="explicit" if bd is not None or r.chance(1, 4) else None)
+    def eblock(p=5):
+        if bd is not None and r.chance(1, 2):
+            return dict(block=bd, block_mode="inherit")
+        b = (1 if r.chance(1, 2 * p) else 0, 1 if r.chance(1, p) else 0, 1 if r.chance(1, p) else 0)
+        return dict(block=b, block_mode="explicit" if bd is not None or r.chance(1, 4) else None)
+    plain_t = dict(block=(bd[1], bd[2]), block_mode="inherit") if bd is not None else dict(block=(0, 0))
+    plain_e = dict(block=bd, block_mode="inherit") if bd is not None else dict(block=(0, 0, 0))
+    # --- the type chain T0 <- T1 <- ... <- Tn, plus a side branch off T0
+    n = 1 + r.below(3)
+    uses = [use(2, "o")]
+    chain = [M.ctype(name=2, kind="E", uses_own=list(uses), **tblock())]
+    for i in range(1, n + 1):
+        deriv = r.choice("eer")
+        own = [use(10 + i, "o")] if deriv == "e" else []
+        uses = uses + own
+        chain.append(M.ctype(name=2 + i, kind="E", base=chain[-1], deriv=deriv, uses_own=own, uses_eff=list(uses), **tblock()))
+    side = None
+    if r.chance(1, 2):
+        deriv = r.choice("er")
+        own = [use(19, "o")] if deriv == "e" else []
+        side = M.ctype(name=9, kind="E", base=chain[0], deriv=deriv, uses_own=own, uses_eff=[use(2, "o")] + own, **tblock())
+    # --- head and members
+    h = M.decl(name=N["h"], type=chain[0], abstract=r.chance(1, 6), **eblock())
+    members = []
+    prev = h
+    for i in range(0, n + 1):
+        if i == 0 and not r.chance(1, 2):
+            continue
+        via = prev if (members and r.chance(1, 3)) else h          # affiliation: the head, or the previous member
+        k = M.decl(name=30 + i, type=chain[i], subst=(1, M.decls[via]["name"]), **(eblock(6) if r.chance(1, 2) else plain_e))
+        members.append(k); prev = k
+    if side is not None:
+        members.append(M.decl(name=39, type=side, subst=(1, N["h"]), **plain_e))
+    inst = Inst(M, r)
+    # --- roots: sequence(exemplar{1,2}) for the head and for one member that has members of its own
+    roots = []
+    exemplars = [h]
+    for k in members:
+        if any(M.decls[j]["subst"] == (1, M.decls[k]["name"]) for j in members):
+            exemplars.append(k); break
+    for ti, x in enumerate(exemplars):
+        p = ("G", "s", [("L", M.dleaf(x), 1, 2)], 1, 1)
+        t = M.ctype(name=40 + ti, kind="O", own=p, **plain_t)
+        rootk = M.decl(name=60 + ti, type=t, **plain_e)
+        M.ctypes[t]["root"] = rootk
+        roots.append((rootk, x))
+    return M, inst, roots
+
+def subst_cases(M, inst, roots, r):
+    """(kind, element): every global element of the model in the place of each exemplar, alone and after the exemplar"""
+    out = []
+    cands = [k for k, d in enumerate(M.decls) if d["glob"] and d["name"] < 60]
+    for rootk, x in roots:
+        rd = M.decls[rootk]
+        for k in cands:
+            kid = inst.elem_for(k, 1, False)
+            out.append(("subst:n%d-for-n%d" % (M.decls[k]["name"], M.decls[x]["name"]), mk(rd["ns"], rd["name"], kids=[kid])))
+        for k in cands:
+            if r.chance(1, 2):
+                a, b = inst.elem_for(r.choice(cands), 1, True), inst.elem_for(k, 1, True)
+                out.append(("subst2:n%d-for-n%d" % (M.decls[k]["name"], M.decls[x]["name"]), mk(rd["ns"], rd["name"], kids=[a, b])))
+    return out
